@@ -16,6 +16,19 @@ Scenario kinds (all use real sockets on loopback):
   peer-req    scripted reference requestor -> real acceptor              : responses judged by the reference on both ends
   concurrent  scripted requestor advertising a small maximum length sends N-EVENT-REPORT requests while a C-FIND is
               being answered (N-EVENT-REPORT is served on its own thread); seeded yields inside send_msg's fragment loop
+
+Violation keys (mechanism | message type | sender path):
+  flag-without-dataset|<type>|<path>            CommandDataSetType announces a data set, none follows
+  dataset-without-flag|<type>|<path>            data-set fragments follow a command set that announced none
+  dataset-last-fragment-missing|... / command-last-fragment-missing|...     the last bit never comes
+  interleaved-fragments|<type>|<path>           a fragment of another message inside an unfinished one (single-message scenarios)
+  interleaved-fragments|n-event-report-during-c-find    the same, produced by two overlapping send_msg calls (concurrent scenario)
+  malformed-fragment|... / malformed-command-set|...
+  not-delivered|<type>|<absent|empty|non-empty> the receiver never completed it / never handed it to the service layer
+  association-lost-after|<type>|<variant>       everything delivered, but the follow-up C-ECHO-RQ is no longer served
+<path>: send_c_find ... send_n_delete (public API), scp (service-class response), scp-get-subop / scp-move-subop (C-STORE
+sub-operation requests), scu-store-scp (requestor answering a C-GET sub-operation).
+Triage / self-test helpers: tools/triage_C16.py (plain script), tools/C16_mutants.py, tools/C16_candidate_fix.diff.
 """
 from __future__ import annotations
 
@@ -30,7 +43,7 @@ import warnings
 
 from vlib import cmdset, dimse_ref, harness, ps38, sched, taps
 from vlib.common import rng_for, sha
-from vlib.peer import Listener, Peer, accept_association
+from vlib.peer import Listener, Peer
 
 PID = "C16"
 LEVEL = "exploration"
@@ -39,10 +52,18 @@ RULE = ("cases = (scenario kind, API / request type, request data-set variant ab
         "data-set presence, single/multi fragment) signatures observed on the wire; non-trivial = the message under test was "
         "found on the sender's wire log and its delivery was decided")
 ASSUMPTIONS = [
-    "bounded progress: DIMSE timeout 3 s (retry once with 8 s before 'not-delivered' is reported on a clean wire)",
-    "the wire is what the socket proxy's send() accepted (loopback, no loss); the scripted peer's own rx log is compared with it",
+    "bounded progress: DIMSE timeout 3 s; a case whose only findings are delivery findings on a clean wire is re-run once "
+    "(8 s timeout) before they are reported; a requestor user thread blocked for more than 25 s is abandoned (inconclusive "
+    "unless the wire itself is wrong)",
+    "the wire is what the socket proxy's send() accepted (loopback, no loss); the scripted peer's own rx log is judged as well",
     "requests sent by the scripted peer are conformant; hostile input is out of scope here",
-    "inputs the public API rejects before sending anything (e.g. send_c_store(Dataset())) are skipped and counted",
+    "inputs the public API rejects before sending anything (send_c_find(None), send_c_store(Dataset()), ...) are skipped and counted",
+    "a data set that encodes to zero bytes may be announced (CommandDataSetType != 0x0101) and sent as ONE zero-length last "
+    "fragment, or not announced and not sent: the flag must match what is sent",
+    "'association stays up' = the follow-up C-ECHO-RQ is completed and answered by the receiver; whether send_c_echo() returns "
+    "that answer to the caller is not judged (requestor-side reactor handshake, other property)",
+    "concurrency: seeded sleep(0)/<=4 ms delays on the `self.dul.send_pdu(pdata)` line of DIMSEServiceProvider.send_msg widen "
+    "the window; only schedules reached by those seeds are covered",
 ]
 WORKERS = {"quick": 16, "thorough": 16}
 QUICK_CONCURRENT = 0      # concurrency cases in the quick tier (DESIGN: thorough only); raise once the finding is fixed/recorded
@@ -53,7 +74,7 @@ def REQUIRE(tier):
     req = {"messages_judged": 150 if q else 3000, "pair_cases": 60 if q else 400, "peer_acc_cases": 20 if q else 100,
            "peer_req_cases": 20 if q else 100, "req_empty_dataset_sent": 10, "rsp_empty_dataset_handlers": 10,
            "rsp_none_dataset_handlers": 10, "rsp_with_dataset_on_wire": 15, "retrieve_final_with_identifier": 5,
-           "req_zero_length_dataset_fragment": 2, "multi_fragment_messages": 30, "apis_covered": 12,
+           "chunked_empty_file_sent": 2, "multi_fragment_messages": 30, "apis_covered": 12,
            "message_types_covered": 23}
     if not q or QUICK_CONCURRENT:
         req.update({"concurrent_cases": 4 if q else 40, "concurrent_send_msg_entered_together": 2 if q else 40,
@@ -338,7 +359,7 @@ def sender_path(sender, name):
     return "scp"
 
 
-def judge_wire(stream, sender, concurrent_ctx=None):
+def judge_wire(stream, sender):
     """-> (message summaries, violations).  Everything here comes from the reference codecs."""
     pdvs, notes = stream_pdvs(stream)
     msgs = dimse_ref.reassemble(pdvs)
@@ -835,8 +856,11 @@ def run_pair_once(case, counters, dimse_timeout):
     bump(counters, "pair_cases")
     bump(counters, "api_" + api)
     for s in sent_main[:1]:
-        if case.get("ds") == "empty" and s["flag"] is False:
+        if case.get("ds") == "empty":
             bump(counters, "req_empty_dataset_sent")
+            bump(counters, "req_empty_as_no_dataset" if s["flag"] is False else "req_empty_as_flagged_dataset")
+            if case.get("store_mode") == "path-chunked":
+                bump(counters, "chunked_empty_file_sent")
         if s["dfrags"] and s["dlen"] == 0:
             bump(counters, "req_zero_length_dataset_fragment")
     if case.get("rsp") == "empty" and any(h[0] not in ("C-ECHO", "C-STORE", "N-DELETE") for h in log.handler):
@@ -1055,8 +1079,11 @@ def run_peer_acc(case, counters, attempt=0):
                          "detail": "follow-up C-ECHO failed: %r; peer events %r" % (echo_err, rec["events"][:8])})
     bump(counters, "peer_acc_cases")
     bump(counters, "api_" + api)
-    if case.get("ds") == "empty" and sent_main[0]["flag"] is False:
+    if case.get("ds") == "empty":
         bump(counters, "req_empty_dataset_sent")
+        bump(counters, "req_empty_as_no_dataset" if sent_main[0]["flag"] is False else "req_empty_as_flagged_dataset")
+        if case.get("store_mode") == "path-chunked":
+            bump(counters, "chunked_empty_file_sent")
     if sent_main[0]["dfrags"] and sent_main[0]["dlen"] == 0:
         bump(counters, "req_zero_length_dataset_fragment")
     for s in msgs:
@@ -1240,7 +1267,6 @@ def run_concurrent(case, counters, attempt=0):
         c2 = dict(case, ts="implicit", ct_ts="implicit", rsp="nonempty", find="pending")
         acc_ae, port = make_acceptor(c2, log, box, 3.0)
         peer = Peer.connect(port)
-        same_ctx = case.get("same_ctx", False)
         pcs = [{"id": 1, "abs": VERIF, "ts": [TS["implicit"]]}, {"id": 5, "abs": FIND, "ts": [TS["implicit"]]},
                {"id": 11, "abs": PRINTER, "ts": [TS["implicit"]]}]
         ac = peer.associate(ps38.make_rq(called="C16-SCP", calling="C16-PEER", pcs=pcs, maxlen=case.get("req_max", 64)))
@@ -1339,7 +1365,7 @@ def gen_cases(tier, seed):
                 "acc_max": rng.choice(maxes), "req_max": rng.choice(maxes)}
 
     # ---- pair: every API x request data-set variant x handler response variant
-    reps = 2 if quick else 8
+    reps = 2 if quick else 30
     for rep in range(reps):
         for api in APIS:
             for ds in ("absent", "empty", "nonempty"):
@@ -1388,7 +1414,7 @@ def gen_cases(tier, seed):
                                   final_status=rng.choice([0xA702, 0xB000]), subop_status=rng.choice([0xA700, 0xB000, 0x0000]),
                                   store_status=0xA700, ct_size=rng.choice(big), ds_size=0, rsp_size=0, **common()))
     # ---- scripted acceptor
-    reps = 2 if quick else 6
+    reps = 2 if quick else 20
     for rep in range(reps):
         for api in APIS:
             for ds in ("absent", "empty", "nonempty"):
@@ -1425,11 +1451,10 @@ def gen_cases(tier, seed):
                     c["rsp_status"] = rng.choice([0x0000, 0x0000, 0x0107, 0x0116, 0x0110])
                 cases.append(c)
     # ---- concurrency (thorough)
-    for i in range(QUICK_CONCURRENT if quick else 80):
-        if True:
-            cases.append(dict(kind="concurrent", req_max=rng.choice([32, 48, 64, 128, 256]), n_pending=rng.choice([4, 6, 10]),
-                              n_events=rng.choice([1, 2, 4, 6]), rsp_size=rng.choice([300, 1000, 3000]), ds_size=rng.choice([0, 300]),
-                              yields=(i % 6 != 0), yseed=rng.randrange(1 << 30), gap=rng.choice([0, 0, 0.002, 0.01]), acc_max=16382))
+    for i in range(QUICK_CONCURRENT if quick else 240):
+        cases.append(dict(kind="concurrent", req_max=rng.choice([32, 48, 64, 128, 256]), n_pending=rng.choice([4, 6, 10]),
+                          n_events=rng.choice([1, 2, 4, 6]), rsp_size=rng.choice([300, 1000, 3000]), ds_size=rng.choice([0, 300]),
+                          yields=(i % 6 != 0), yseed=rng.randrange(1 << 30), gap=rng.choice([0, 0, 0.002, 0.01]), acc_max=16382))
     return cases
 
 
